@@ -3,9 +3,9 @@ import sys
 
 from props import _cluster
 
-THEOREMS = ['XmlDiffModel.C05_strict_refines_to_shipped', 'XmlDiffModel.C05_strict_step_refines', 'XmlDiffModel.C05_attribute_actions_applicable', 'XmlDiffModel.C05_shipped_accepts_script']
+THEOREMS = ['XmlDiffModel.C05_strict_refines_to_shipped', 'XmlDiffModel.C05_strict_step_refines', 'XmlDiffModel.C05_attribute_actions_applicable', 'XmlDiffModel.C05_shipped_accepts_script', 'XmlDiffModel.C05_differ_script_accepted']
 PARTIAL = {}
-LEAN_MODULES = ['XmlDiffModel.Props.C05', 'XmlDiffModel.Props.Replay']
+LEAN_MODULES = ['XmlDiffModel.Props.C01', 'XmlDiffModel.Props.C05', 'XmlDiffModel.Props.Replay']
 SOURCES = ['diff.Differ.diff', 'diff.Differ.update_node_attr', 'diff.Differ.find_pos', 'patch.Patcher']
 RULE = 'Differ cluster: the real script is replayed action by action under the strict (documented) semantics in the Lean model: attribute preconditions, positions within 0..childCount, no move into own subtree, delete only childless nodes; result compared with R. U2 compares the shipped patcher with its model on the same scripts. Non-trivial = script has >= 2 action types or a move.'
 ASSUMPTIONS = [
